@@ -28,7 +28,8 @@ package peer
 //             timers by reconnect.go);
 //             (b) the k-th retry does not start sooner than (1-jitter) x that delay after the
 //             EARLIEST event since the previous attempt started that made a retry due (failure of
-//             an attempt, a Schedule call, a failed dial inside the manager); if nothing made it
+//             an attempt, a Schedule call, a failed dial inside the manager, the arming of a
+//             retry timer); if nothing made it
 //             due (previous attempt still in flight, no Schedule since) the delay is measured from
 //             the start of the previous attempt -- all on the virtual clock. Lateness on the clock
 //             is never judged (a timer may always fire late; a re-Schedule does not make an
@@ -222,6 +223,9 @@ func (w *c31World) resetDone() {
 // onArm sees the duration of every timer reconnect.go arms (clause backoff (a)).
 func (w *c31World) onArm(d time.Duration) {
 	w.ev("arm(%v)", d)
+	// arming a timer is itself evidence that a retry was made due now (covers Schedule calls
+	// the harness cannot see, e.g. the trailing one inside Manager.ReconnectAll)
+	w.dueAt = append(w.dueAt, c31Now())
 	if !w.exists || w.ambiguous || w.inReconnectAll {
 		return
 	}
